@@ -6,43 +6,28 @@ Import ListNotations.
 Local Open Scope string_scope.
 Local Open Scope Z_scope.
 
-Lemma f4_free_image p : f4_free p = true -> f4_image p = p.
-Proof.
-  unfold f4_free, f4_image. intros H. apply andb_true_iff in H as [H Hsc]. apply andb_true_iff in H as [Hd Hs].
-  destruct p as [ver indep start ac td sc pi mseq ds pt mp sk segs parts hint endl]; simpl in *.
-  destruct start; [discriminate|].
-  assert (E1 : match ds with Some _ => Some mseq | None => None end = ds)
-    by (destruct ds; auto; apply Z.eqb_eq in Hd; congruence).
-  assert (E2 : option_map f4_server_control sc = sc).
-  { destruct sc as [t|]; auto. simpl. unfold f4_server_control. now rewrite Hsc. }
-  unfold m_set_servercontrol, m_set_start, m_set_discseq; simpl. now rewrite E1, E2.
-Qed.
-
 Section WithOracles.
 Variable orc : oracles.
 Hypothesis OK : oracle_ok orc.
 
-(* the faithful model: Unmarshal (Marshal p) is the F4 image of p, field by field *)
-Theorem media_roundtrip_image p : wf_media p = true ->
-  exists p', media_unmarshal orc (media_marshal orc p) = Ok p' /\ media_eqvb (f4_image p) p' = true.
+(* Unmarshal (Marshal p) reproduces p field by field *)
+Theorem media_roundtrip_eqv p : wf_media p = true ->
+  exists p', media_unmarshal orc (media_marshal orc p) = Ok p' /\ media_eqvb p p' = true.
 Proof.
-  intros H. destruct (media_roundtrip_f4 orc OK p H) as (p' & A & B & _). eauto.
+  intros H. destruct (media_roundtrip orc OK p H) as (p' & A & B & _). eauto.
 Qed.
 
-(* ... hence the round trip for every valid value the three defects leave alone *)
-Theorem media_roundtrip_partial p : wf_media p = true -> f4_free p = true ->
-  media_roundtrip_ok orc p = true.
+Theorem media_roundtrip_bool p : wf_media p = true -> media_roundtrip_ok orc p = true.
 Proof.
-  intros H Hf. destruct (media_roundtrip_f4 orc OK p H) as (p' & A & B & _).
-  unfold media_roundtrip_ok. rewrite A. now rewrite f4_free_image in B.
+  intros H. destruct (media_roundtrip orc OK p H) as (p' & A & B & _).
+  unfold media_roundtrip_ok. now rewrite A.
 Qed.
 
-(* Marshal is a fixpoint on its own output unless EXT-X-SERVER-CONTROL lacks CAN-BLOCK-RELOAD *)
-Theorem media_fixpoint_partial p : wf_media p = true ->
-  opt_ok sc_canblockreload (m_servercontrol p) = true -> media_fixpoint_ok orc p = true.
+(* Marshal is a fixpoint on its own output *)
+Theorem media_fixpoint p : wf_media p = true -> media_fixpoint_ok orc p = true.
 Proof.
-  intros H Hf. destruct (media_roundtrip_f4 orc OK p H) as (p' & A & _ & C).
-  unfold media_fixpoint_ok. rewrite A, (C Hf). apply String.eqb_refl.
+  intros H. destruct (media_roundtrip orc OK p H) as (p' & A & _ & C).
+  unfold media_fixpoint_ok. rewrite A, C. apply String.eqb_refl.
 Qed.
 
 End WithOracles.
